@@ -1,6 +1,7 @@
 """C07 — Knocking out genes disables exactly the reactions whose rule becomes false."""
 from contracts import c07_knockout as C
 from contracts import c01_lp  # noqa
+from contracts import c15_get_by_any as GBA
 from props._generic import run_property, replay_with_driver
 
 LEVEL = "other"
@@ -9,7 +10,15 @@ KEYS = ["GPR._eval_gpr", "GPR.eval", "Reaction.functional@getter", "Gene.functio
 
 
 def run(rep):
-    run_property(rep, KEYS, hooks=C.HOOKS, explanation=(
+    run_property(rep, KEYS, hooks=C.HOOKS, more=[(GBA.KEYS, GBA.HOOKS)], explanation=(
+        "DictList.get_by_any (the look-up behind knock_out_model_genes' gene_list; an assumed contract until round 5) is proved against "
+        "its body per argument shape: a single int / str / object gives the NEW one-element list of self[i] / the member registered "
+        "under the id / the object itself, IndexError / KeyError / TypeError otherwise; a list of ints / strs / objects whose items are "
+        "all acceptable gives the NEW list of the look-ups in order; nothing is written. For object items the result consists of "
+        "MEMBERS only under the stated hypothesis that each object is the member registered under its id: `item in self` compares "
+        "identifiers, so a foreign object carrying a member's id is passed through (finding: knock_out_model_genes(m, "
+        "[copy_of_m.genes[0]]) switches off the copy's gene and leaves m untouched). The abstract contract the callers use stays as it "
+        "is; it is implied by the proved one for int / str items and, under that hypothesis, for object items. "
         "Deductive: GPR._eval_gpr is proved equal to the Boolean and/or semantics sem(rule, absent genes) for every well-formed rule "
         "tree by structural induction (recursive calls use the function's own contract), GPR.eval and Reaction.functional follow "
         "(functional = sem(rule, ids of the reaction's non-functional genes), True without a model), and Gene.knock_out is proved, "
@@ -26,7 +35,7 @@ def run(rep):
         "not proved: bounded driver (exhaustive rule trees x gene subsets x orders x entry points against an independent truth-table "
         "evaluator)."),
         lemmas=C.mono_lemmas,
-        trusted=["set comprehension / any / all semantics as axiomatised", "DictList.get_by_any returns a new list of non-None members (assumed contract)", "rule trees are finite and acyclic (well-formedness precondition)"])
+        trusted=["set comprehension / any / all semantics as axiomatised", "DictList.get_by_any in its abstract form (a new list of non-None members; may raise): implied by the PROVED body contract for int / str items and for object items that are the members registered under their ids - for a foreign object with a member's id it does NOT hold (finding); lists with an unacceptable item (raising inside the comprehension) are not covered by the body proof", "rule trees are finite and acyclic (well-formedness precondition)"])
 
 
 def replay(payload):
